@@ -421,7 +421,10 @@ func (b *Backend) respond(c *Conn, ex *Exchange, r *Resp) bool {
 		framing = "cl"
 	}
 	var hb bytes.Buffer
-	fmt.Fprintf(&hb, "HTTP/1.1 %d %s\r\n", status, http.StatusText(status))
+	if status < 0 {
+		status = 0 // Status -1 in a plan: the status line says "000"
+	}
+	fmt.Fprintf(&hb, "HTTP/1.1 %03d %s\r\n", status, http.StatusText(status))
 	ctype := r.CType
 	if ctype == "" {
 		ctype = "application/json"
